@@ -18,7 +18,7 @@ from __future__ import annotations
 
 import hashlib
 
-from harness.common import clist, cstr
+from harness.common import clist, cstr, cz
 
 
 def _digest_attr(attr):
@@ -51,6 +51,9 @@ class Tracer:
         self.errors = []
         self._saved = None
         self.new_inits = set()
+        self.gids = {}            # id(graph object) -> number; model.graph = 0
+        self.pre_meta = {}        # id(new node) -> metadata_props the replacement function gave it
+        self.fn_tokens_done = set()
 
     # ---- tokens
     def token(self, v):
@@ -139,6 +142,144 @@ class Tracer:
                         return [(i, name)] + sub
         return None
 
+    # ---- the non-node parts of the model (OV.Rewrite.State)
+    def gid(self, g):
+        import onnx_ir as ir
+        g = g.graph if isinstance(g, ir.Function) else g
+        k = self.gids.get(id(g))
+        if k is None:
+            k = len(self.gids) + 1
+            self.gids[id(g)] = k
+            self.keep.append(g)
+        return k
+
+    @staticmethod
+    def meta_lit(items):
+        return clist([f"({cstr(k)}, {cstr(v)})" for k, v in items])
+
+    def _graphs_of(self, top):
+        """The graph object and every graph nested in it."""
+        import onnx_ir as ir
+        g = top.graph if isinstance(top, ir.Function) else top
+        yield g
+        for n in g:
+            for a in n.attributes.values():
+                if a.is_ref():
+                    continue
+                if a.type.name == "GRAPH":
+                    yield from self._graphs_of(a.value)
+                elif a.type.name == "GRAPHS":
+                    for sg in a.value:
+                        yield from self._graphs_of(sg)
+
+    def fdef_lit(self, f, opaque):
+        imps = clist([f"({cstr(d)}, {cz(v)})" for d, v in f.opset_imports.items()])
+        if opaque:
+            import onnx_ir as ir
+            h = hashlib.sha1(ir.serde.serialize_function(f).SerializeToString(deterministic=True)).hexdigest()[:16]
+            return f"(FDef {imps} [] [Node \"\" {cstr('digest:' + h)} [] [] [] []] [])"
+        ins = clist([self.token(v) for v in f.inputs], cstr)
+        outs = clist([self.token(v) for v in f.outputs], cstr)
+        return f"(FDef {imps} {ins} {clist([self.node_lit(n) for n in f])} {outs})"
+
+    def state_lit(self, model, top, known_functions):
+        """MState literal: imports and initializers of every graph object of the model, the functions table (functions
+        that existed when the sweep started: opaque digest of their serialisation), metadata of the swept container."""
+        imports, inits, funcs, nmeta, vmeta = [], [], [], [], []
+        self.gids.setdefault(id(model.graph), 0)
+        # (a function created during the sweep appears in the functions table only)
+        tops = [model.graph] + [f for key, f in model.functions.items() if key in known_functions]
+        for t in tops:
+            for g in self._graphs_of(t):
+                k = self.gid(g)
+                for d, v in g.opset_imports.items():
+                    imports.append(f"(({k}%nat, {cstr(d)}), {cz(v)})")
+                for name, v in g.initializers.items():
+                    inits.append(f"(({k}%nat, {cstr(name)}), {cstr(self.token(v))})")
+        for key, f in model.functions.items():
+            fk = f"({cstr(key[0])}, {cstr(key[1])}, {cstr(key[2])})"
+            if f is top:
+                continue                                 # the swept function itself: its body is the graph being replayed
+            funcs.append(f"({fk}, {self.fdef_lit(f, key in known_functions)})")
+        seen = set()
+
+        def val(v):
+            if v is not None and id(v) not in seen:
+                seen.add(id(v))
+                if v.metadata_props:
+                    vmeta.append(f"({cstr(self.token(v))}, {self.meta_lit(v.metadata_props.items())})")
+        for g in self._graphs_of(top):
+            for v in g.inputs:
+                val(v)
+            for v in g.initializers.values():
+                val(v)
+            for n in g:
+                if n.metadata_props and n.outputs:
+                    nmeta.append(f"({cstr(self.token(n.outputs[0]))}, {self.meta_lit(n.metadata_props.items())})")
+                for v in n.outputs:
+                    val(v)
+        return f"(MState {clist(imports)} {clist(inits)} {clist(funcs)} {clist(nmeta)} {clist(vmeta)})"
+
+    def delta_lit(self, rec, gof, delta, rule, matched_keys=(), matched_vals=(), new_nodes=(), dead=(), fn=None):
+        import onnx_ir as ir
+        import onnxscript.rewriter._rewrite_rule as rr
+        ops = clist(sorted(f"({cstr(d)}, {'None' if v is None else '(Some ' + cz(v) + ')'})" for d, v in delta.used_opsets))
+        ini = clist([f"({cstr(v.name)}, {cstr(self.token(v))})" for v in delta.new_initializers])
+        g = gof.graph if isinstance(gof, ir.Function) else gof
+        other = clist(sorted({v.name for v in g.inputs if v.name} | {v.name for n in g for v in n.outputs if v.name}), cstr)
+        new = clist([f"({cstr(self.token(n.outputs[0]))}, {self.meta_lit(self.pre_meta.get(id(n), []))})" for n in new_nodes])
+        newv = clist([self.token(v) for n in new_nodes for v in n.outputs], cstr)
+        deadl = clist([f"({cstr(a)}, {cstr(b)})" for a, b in dead])
+        return (f"(Delta {self.gid(gof)}%nat {self.gid(rec['top_obj'])}%nat {'true' if isinstance(gof, ir.Function) else 'false'} "
+                f"{ops} {ini} {other} {cstr(rule.name or '')} {clist(list(matched_keys), cstr)} {clist(list(matched_vals), cstr)} "
+                f"{new} {newv} {'true' if rule.remove_nodes else 'false'} {deadl} {fn or 'None'} "
+                f"{'true' if rr.merge_metadata else 'false'})")
+
+    def fn_request(self, model, call_node, ordered, gof):
+        """as_function: give tokens to the values of the extracted function (the copies keep the names of the originals;
+        tokens as they are BEFORE the splice) and describe it: (FnReq literal, cmap literal, cattrs literal) or None."""
+        key = (call_node.domain, call_node.op_type, call_node.overload)
+        f = model.functions.get(key)
+        if f is None:
+            return None
+        by_name = {}
+        for n in ordered:
+            for v in list(n.inputs) + list(n.outputs):
+                if v is not None and v.name:
+                    by_name.setdefault(v.name, v)
+        for v in call_node.inputs:
+            if v is not None and v.name:
+                by_name[v.name] = v
+        for fv in f.inputs:
+            o = by_name.get(fv.name)
+            self.set_token(fv, self.token(o) if o is not None else self.fresh("fnin"))
+        body = list(f)
+        n_const = max(0, len(body) - len(ordered))
+        consts, copies = body[:n_const], body[n_const:]
+        for c in consts:
+            for v in c.outputs:
+                self.set_token(v, self.fresh("fnconst"))
+        for n in copies:
+            for v in n.outputs:
+                o = by_name.get(v.name)
+                self.set_token(v, self.token(o) if o is not None else self.fresh("fnval"))
+        const_out = {id(v) for c in consts for v in c.outputs}
+        cmap = []
+        for fn_node, orig in zip(copies, ordered):
+            for fi, oi in zip(fn_node.inputs, orig.inputs):
+                if fi is not None and id(fi) in const_out and oi is not None:
+                    pair = (self.token(oi), self.token(fi))
+                    if pair not in cmap:
+                        cmap.append(pair)
+        cattrs = []
+        for c in consts:
+            cattrs.append(clist([f"({cstr(name)}, AStr {cstr(_digest_attr(c.attributes[name]))})" for name in sorted(c.attributes)]))
+        used = clist([(n.domain if n.domain != "ai.onnx" else "") for n in ordered], cstr)
+        req = (f"(Some (FnReq {cstr(call_node.domain)} {cstr(call_node.op_type)} {used} "
+               f"{clist([self.token(v) for v in f.inputs], cstr)} {clist([self.node_lit(n) for n in body])} "
+               f"{clist([self.token(v) for v in f.outputs], cstr)}))")
+        return req, clist([f"({cstr(x)}, {cstr(y)})" for x, y in cmap]), clist(cattrs)
+
     # ---- wrappers
     def install(self, rule_objects):
         import onnxscript.rewriter._rewrite_rule as rr
@@ -157,7 +298,14 @@ class Tracer:
                 rec = dict(kind="function" if isinstance(graph_or_function, ir.Function) else "graph",
                            name=getattr(graph_or_function, "name", None), top=graph_or_function,
                            g0=tracer.graph_lit(graph_or_function), apps=[], visits={}, unmodelled=[],
-                           matched_sigs=[], new_nodes=0, count=None, gfinal=None, levels={}, ext=[])
+                           matched_sigs=[], new_nodes=0, count=None, gfinal=None, levels={}, ext=[],
+                           top_obj=graph_or_function, model=model, known_functions=set(model.functions.keys()), events=[],
+                           s0=None, sfinal=None)
+                tracer.gids.setdefault(id(model.graph), 0)
+                try:
+                    rec["s0"] = tracer.state_lit(model, graph_or_function, rec["known_functions"])
+                except Exception as e:  # instrumentation must never change what the implementation does
+                    rec["unmodelled"].append(f"tracer error in the state snapshot: {type(e).__name__}: {e}")
                 tracer.cur = rec
                 tracer.sweeps.append(rec)
             tracer.depth += 1
@@ -169,7 +317,13 @@ class Tracer:
                 rec = tracer.cur
                 rec["count"] = count
                 rec["gfinal"] = tracer.graph_lit(graph_or_function)
+                try:
+                    rec["sfinal"] = tracer.state_lit(model, graph_or_function, rec["known_functions"])
+                except Exception as e:
+                    rec["unmodelled"].append(f"tracer error in the state snapshot: {type(e).__name__}: {e}")
                 rec["top"] = None
+                rec["top_obj"] = None
+                rec["model"] = None
                 tracer.cur = None
             return count
 
@@ -195,6 +349,14 @@ class Tracer:
                             tracer.set_token(v, tracer.fresh("init"))
                         if tracer.tok[id(v)] not in rec["ext"]:
                             rec["ext"].append(tracer.tok[id(v)])
+                    try:
+                        for n in delta.new_nodes:
+                            if id(n) not in tracer.pre_meta:
+                                tracer.pre_meta[id(n)] = list(n.metadata_props.items())
+                                tracer.keep.append(n)
+                        rec["events"].append("(EVisit " + tracer.delta_lit(rec, graph_or_function, delta, self_) + ")")
+                    except Exception as e:
+                        rec["unmodelled"].append(f"tracer error at a visit: {type(e).__name__}: {e}")
             return delta
 
         def replace_wrapper(graph_or_function, insertion_point, old_nodes, new_nodes, old_values, new_values):
@@ -265,6 +427,14 @@ class Tracer:
             rec["unmodelled"].append("graph being rewritten is not reachable from the swept graph")
             info["skip"] = True
             return info
+        ordered = [nodes[i] for i in midx]
+        info["mkeys"] = [self.token(n.outputs[0]) for n in matched if n.outputs]
+        info["mvals"] = [self.token(v) for n in ordered for v in n.outputs]
+        info["delta"], info["rule"], info["fn"] = delta, rule, None
+        if rule is not None and rule.as_function and len(new_nodes) == 1:
+            info["fn"] = self.fn_request(rec["model"], new_nodes[0], ordered, gof)
+            if info["fn"] is None:
+                rec["unmodelled"].append("as_function: the extracted function is not in model.functions under the call node's identifier")
         pouts, dead = [], []
         for ov, nv in zip(old_values, new_values):
             t = self.token(ov)
@@ -290,6 +460,13 @@ class Tracer:
         app = f"(App {clist(mask)} {new} {'true' if info['remove'] else 'false'} {dead})"
         path = clist([f"({i}%nat, {cstr(k)})" for i, k in info["path"]])
         rec["apps"].append(f"({path}, {app}, {clist(info['pouts'], cstr)})")
+        if info.get("delta") is not None:
+            fn = info.get("fn")
+            d = self.delta_lit(rec, gof, info["delta"], info["rule"], info["mkeys"], info["mvals"], new_nodes, info["dead"],
+                               fn=fn[0] if fn else None)
+            rec["events"].append(f"(ESplice {path} {app} {d} {fn[1] if fn else '[]'} {fn[2] if fn else '[]'})")
+        else:
+            rec["unmodelled"].append("a splice without a recorded replacement")
         removed = len(info["matched"]) if info["remove"] else 0
         rec["levels"].setdefault(info["gid"], []).append(
             dict(root=info["root"], next=info["root"] + 1 - removed, n_after=info["n_before"] - removed + len(new_nodes)))
